@@ -534,7 +534,22 @@ def check_subject_encrypt_node(ctx, inst):
         a = m_call(val, name='replace_subject', self_suffix='Envelope')
         if a is not None:
             found += 1
-            ctx.ok(inst, ctx.site(b, bi), 'node arm returns replace_subject(self, encrypted subject)')
+            sv = strip_sites(detry(a[1]))
+            u = m_call(sv, name='unwrap') or m_call(sv, name='expect')
+            if u is not None:
+                sv = strip_sites(detry(u[0]))
+            e = m_call(sv, name='new_with_encrypted')
+            msg = m_call(strip_sites(detry(e[0])), name='encrypt_with_digest') if e else None
+            ok_s = False
+            if msg is not None:
+                p = m_call(msg[1], name='to_cbor_data')
+                tcb = m_call(p[0], name='tagged_cbor') if p else None
+                ok_s = tcb is not None and child_kind(tcb[0]) == 'Node.subject' and own_digest_of(strip_sites(tcb[0]), msg[2])
+            if ok_s and strip_sites(a[0]) == ('param', 1):
+                ctx.ok(inst, ctx.site(b, bi), 'node arm returns replace_subject(self, encrypted subject)')
+            else:
+                ctx.fail(inst, ctx.site(b, bi), 'node arm of subject encryption replaces the subject by %s, which is not the subject\'s own encoding encrypted under the subject\'s own digest' % fmt(sv)[:200],
+                         key=inst + '|replace')
     if found == 0:
         ctx.lost(inst, 'node rebuild in encrypt_subject_opt')
 
